@@ -214,6 +214,57 @@ fn candidates(h: &History, v: &Violation) -> Vec<History> {
                                 }
                             }
                         }
+                        Op::Threads { queries, threads, schedule, .. } => {
+                            let set = |c: &mut History, q: Vec<QuerySpec>, t: Vec<Vec<usize>>, sch: Vec<u8>| {
+                                if let Step::Start { session } = &mut c.steps[si] {
+                                    if let Op::Threads { queries, threads, schedule, .. } = &mut session.ops[oi] {
+                                        *queries = q;
+                                        *threads = t;
+                                        *schedule = sch;
+                                    }
+                                }
+                            };
+                            // no interleaving at all, then shorter schedules
+                            if !schedule.is_empty() {
+                                for sch in [Vec::new(), schedule[..schedule.len() / 2].to_vec(), schedule[..schedule.len() - 1].to_vec()] {
+                                    let mut c = h.clone();
+                                    set(&mut c, queries.clone(), threads.clone(), sch);
+                                    out.push(c);
+                                }
+                            }
+                            // fewer threads
+                            if threads.len() > 1 {
+                                for ti in (0..threads.len()).rev() {
+                                    let mut t = threads.clone();
+                                    t.remove(ti);
+                                    let mut c = h.clone();
+                                    set(&mut c, queries.clone(), t, schedule.clone());
+                                    out.push(c);
+                                }
+                            }
+                            // fewer queries per thread
+                            for ti in 0..threads.len() {
+                                for qi in (0..threads[ti].len()).rev() {
+                                    if threads.iter().map(|t| t.len()).sum::<usize>() > 1 {
+                                        let mut t = threads.clone();
+                                        t[ti].remove(qi);
+                                        let mut c = h.clone();
+                                        set(&mut c, queries.clone(), t, schedule.clone());
+                                        out.push(c);
+                                    }
+                                }
+                            }
+                            // more of "the current thread goes on"
+                            for (i, b) in schedule.iter().enumerate().rev() {
+                                if *b != 0 && schedule.len() <= 64 {
+                                    let mut sch = schedule.clone();
+                                    sch[i] = 0;
+                                    let mut c = h.clone();
+                                    set(&mut c, queries.clone(), threads.clone(), sch);
+                                    out.push(c);
+                                }
+                            }
+                        }
                         _ => {}
                     }
                 }
